@@ -26,7 +26,6 @@ let letter (ts : M.tstate) = match ts.M.foc with
   | M.FSt (M.DecCount :: _) -> "D"
   | M.FAccess -> "A"
   | _ -> "?"
-let mid_rmw (ts : M.tstate) = match ts.M.foc with M.FIncW _ | M.FDecW _ -> true | _ -> false
 let nth_opt l i = try Some (List.nth l i) with _ -> None
 let holders_str s = String.concat "" (List.map (fun t -> string_of_int (int_of_nat t)) (M.holders s))
 
@@ -58,20 +57,15 @@ let do_run k clients sched =
     (match nth_opt s.M.thr ti with
      | None -> Buffer.add_string buf "- "
      | Some ts ->
-       (match M.mstep_ev p k t !m with
+       (match M.adv p k t !m with
         | None -> Buffer.add_string buf "- "
-        | Some (m1, _) ->
-          let m2 = ref m1 in
-          let continue = ref true in
-          while !continue do
-            match nth_opt (fst !m2).M.thr ti with
-            | Some ts' when mid_rmw ts' ->
-              (match M.mstep_ev p k t !m2 with Some (m3, _) -> m2 := m3 | None -> continue := false)
-            | _ -> continue := false
-          done;
-          let ts2 = List.nth (fst !m2).M.thr ti in
-          Buffer.add_string buf (Printf.sprintf "%d%s%s:h%s " ti (letter ts) (completed ts ts2) (holders_str (fst !m2)));
-          m := !m2))) sched;
+        | Some (m2, _) ->
+          let m2 = (match (List.nth (fst m2).M.thr ti).M.foc with
+            | M.FIncW _ | M.FDecW _ -> (match M.mstep_ev p k t m2 with Some (m3, _) -> m3 | None -> m2)
+            | _ -> m2) in
+          let ts2 = List.nth (fst m2).M.thr ti in
+          Buffer.add_string buf (Printf.sprintf "%d%s%s:h%s " ti (letter ts) (completed ts ts2) (holders_str (fst m2)));
+          m := m2))) sched;
   let s = fst !m in
   let sh = s.M.sh in
   Buffer.add_string buf (Printf.sprintf "| f=%d o=%s c=%s d=%s"
